@@ -9,4 +9,4 @@ Extraction "raftmodel.ml"
   majority_committed_index majority_vote_result joint_committed_index joint_vote_result
   x_init init_node proj_of check_step safety_okb election_okb matching_okb sms_okb lc_okb step_okb
   model_step run
-  cx_init node_cfg check_step_cc.
+  cx_init node_cfg cfg_of joint_satb check_step_cc.
